@@ -9,6 +9,8 @@ import (
 	"encoding/json"
 	"fmt"
 	"os"
+	"path/filepath"
+	"sort"
 	"strings"
 	"time"
 
@@ -1006,7 +1008,9 @@ func Run(c *corr.Ctx) {
 	}
 }
 
-func replay(c *corr.Ctx, in *Input) {
+func replay(c *corr.Ctx, in *Input) { replayNamed(c, in, "replay") }
+
+func replayNamed(c *corr.Ctx, in *Input, name string) {
 	switch in.Kind {
 	case "m2c":
 		var m mikey.Message
@@ -1020,26 +1024,58 @@ func replay(c *corr.Ctx, in *Input) {
 					t.TSValue = ts
 				}
 			}
-			runM2C(c, &m, false, "replay", "replay", -1)
+			runM2C(c, &m, false, name, "replay", -1)
 		} else {
 			c.Note("replay of a structure-only MIKEY message is not supported: " + in.Msg)
 		}
 	case "c2m":
-		runC2M(c, in, "replay")
+		runC2M(c, in, name)
 	case "pipe":
-		runPipe(c, in, "replay")
+		runPipe(c, in, name)
 	case "admit":
 		var trs []trSpec
 		for _, t := range in.Trs {
 			trs = append(trs, trSpec{t[0] == 'u', t[2] == '1', t[4] == 's'})
 		}
-		runAdmit(c, in.Cfg, trs, "replay")
+		runAdmit(c, in.Cfg, trs, name)
 	default:
 		replayE2E(c, in)
 	}
 }
 
+func corpusDir() string {
+	if d := os.Getenv("VERIF_ROOT"); d != "" {
+		return filepath.Join(d, "corpus", prop)
+	}
+	if exe, err := os.Executable(); err == nil {
+		d := filepath.Join(filepath.Dir(exe), "..", "..", "corpus", prop)
+		if st, err2 := os.Stat(d); err2 == nil && st.IsDir() {
+			return d
+		}
+	}
+	return "/verif/corpus/" + prop
+}
+
 func runCorpus(c *corr.Ctx) {
+	if files, err := filepath.Glob(filepath.Join(corpusDir(), "*.json")); err == nil {
+		sort.Strings(files)
+		for _, f := range files {
+			b, e := os.ReadFile(f)
+			if e != nil {
+				continue
+			}
+			var in Input
+			if e = json.Unmarshal(b, &in); e != nil {
+				c.Note("corpus file " + filepath.Base(f) + ": " + e.Error())
+				continue
+			}
+			if in.Kind == "e2e" && os.Getenv("VERIF_SEC_ONLY") == "unit" {
+				continue
+			}
+			replayNamed(c, &in, "corpus-"+strings.TrimSuffix(filepath.Base(f), ".json"))
+			c.Dist("corpus")
+		}
+	}
 	// sequence-number wrap right after the hand-over, start ROC 0 and a high one
 	for i, roc := range []uint32{0, 1, 65535, 0xFFFFFFFE} {
 		in := &Input{Kind: "pipe", Strict: true, Key: corr.Hex(bytes.Repeat([]byte{byte(i + 1)}, 30)), MKI: "-", SSRCs: []uint32{0x11223344}, ROCs: []uint32{roc}}
